@@ -852,3 +852,80 @@ func (m *Model) applyInsertsCases(ai *ssa.Function) (bad string, decided bool) {
 	}
 	return "", true
 }
+
+// RunSlotNilCase — R-EMIT (empty slot by cases): a placeholder for which the caller passed no body is "replaced by
+// nothing": Eval on a slot statement whose Body is nil — named and default — with an evaluator and a scope about which
+// nothing is known yields the nil object (not a variable that happens to have the slot's name).
+func (m *Model) RunSlotNilCase(s *Sink, rule string) {
+	ev := m.Method("evaluator", "Evaluator", "Eval")
+	st, litT := m.namedType("ast", "SlotStmt"), m.namedType("ast", "StringLiteral")
+	nilT, htmlT, strT := m.namedType("object", "Nil"), m.namedType("object", "HTML"), m.namedType("object", "Str")
+	key := "evaluator.Eval|a placeholder without a passed body evaluates to nothing"
+	if ev == nil || st == nil || litT == nil || nilT == nil {
+		s.Undecided(rule, key, "-", "Eval / ast.SlotStmt / object.Nil not found")
+		return
+	}
+	fieldIdx := func(t *types.Named, name string) int {
+		stt := t.Underlying().(*types.Struct)
+		for i := 0; i < stt.NumFields(); i++ {
+			if canonFieldName(t, i, stt.Field(i).Name()) == name {
+				return i
+			}
+		}
+		return -1
+	}
+	fBody, fName, fVal := fieldIdx(st, "Body"), fieldIdx(st, "Name"), fieldIdx(litT, "Value")
+	if fBody < 0 || fName < 0 || fVal < 0 {
+		s.Undecided(rule, key, "-", "fields of ast.SlotStmt not found")
+		return
+	}
+	for _, name := range []string{"footer", ""} {
+		node := &iStruct{typ: st, fields: map[int]any{fBody: iNil{}, fName: &iStruct{typ: litT, fields: map[int]any{fVal: constant.MakeString(name)}}}}
+		ip := &Interp{m: m, useGlobals: true}
+		res, known := ip.Run(ev, []any{iObj{"evaluator"}, node, iObj{"env"}})
+		if ip.stuck != "" || len(ip.lost) > 0 || !known {
+			why := ip.stuck
+			if why == "" && len(ip.lost) > 0 {
+				why = fnKey(ip.lost[0]) + " could not be evaluated"
+			}
+			s.Undecided(rule, key, m.Pos(ev.Pos()), "what a placeholder %q without a passed body evaluates to depends on something other than the statement — the scope, the settings — (%s): it is nothing only sometimes", name, why)
+			return
+		}
+		var isEmpty func(v any, d int) bool
+		isEmpty = func(v any, d int) bool {
+			if _, isNil := v.(iNil); isNil {
+				return true
+			}
+			o, isO := v.(*iStruct)
+			if !isO || d > 2 {
+				return false
+			}
+			if o.typ == nilT {
+				return true
+			}
+			if o.typ == htmlT || o.typ == strT {
+				for _, f := range o.fields {
+					if c, isC := f.(constant.Value); isC && c.Kind() == constant.String && constant.StringVal(c) == "" {
+						return true
+					}
+				}
+				return false
+			}
+			// a wrapper object (object.Slot) whose content is nothing
+			if slotT := m.namedType("object", "Slot"); slotT != nil && o.typ == slotT {
+				ci := fieldIdx(slotT, "Content")
+				if ci < 0 {
+					return false
+				}
+				c, have := o.fields[ci]
+				return have && isEmpty(c, d+1)
+			}
+			return false
+		}
+		if !isEmpty(res, 0) {
+			s.Violation(rule, key, m.Pos(ev.Pos()), "Eval of a placeholder %q without a passed body yields %s, not nothing (the nil object, or a slot object whose content is the nil object)", name, describeAny(res))
+			return
+		}
+	}
+	s.OK(rule, key, m.Pos(ev.Pos()), "case evaluation of Eval on a named and on the default placeholder with Body == nil, evaluator and scope unknown: the nil object")
+}
